@@ -205,7 +205,7 @@ fn c03_items(ctx: &Ctx) -> Vec<(String, GrammarSpec, Vec<Vec<u8>>)> {
     for it in corpus::json_items().into_iter().chain(corpus::regex_items()) {
         v.push((it.name.clone(), it.g.clone(), it.sentences.clone()));
     }
-    let ok_lark = ["ab-seq", "alt-x", "digits", "nested", "list", "opt", "rep", "lrec", "rrec", "ambig", "nullable", "term-cat", "greedy-overlap", "utf8", "case-insens", "long-literal", "param-uniq", "param-perm", "param-count", "empty-alt", "group-rep", "mutual", "json-inline", "two-json", "substr"];
+    let ok_lark = ["ab-seq", "alt-x", "digits", "nested", "list", "opt", "rep", "lrec", "rrec", "ambig", "nullable", "term-cat", "greedy-overlap", "utf8", "case-insens", "long-literal", "param-uniq", "param-perm", "param-count", "empty-alt", "group-rep", "mutual", "json-inline", "two-json", "substr", "and-alt", "and-seq"];
     for it in corpus::lark_items() {
         if ok_lark.contains(&it.name.as_str()) {
             v.push((it.name.clone(), it.g.clone(), it.sentences.clone()));
